@@ -21,17 +21,17 @@ import (
 // C19 — data crosses the UDF boundary unchanged and the protocol is framed safely.
 
 type c19Msg struct {
-	Batch  bool                     `json:"batch"`
-	Name   string                   `json:"name"`
-	DB     string                   `json:"db,omitempty"`
-	RP     string                   `json:"rp,omitempty"`
-	Tags   map[string]string        `json:"tags"`
-	Dims   []string                 `json:"dims"`
-	ByName bool                     `json:"by_name"`
-	TimeNs int64                    `json:"time_ns"`
-	Fields map[string]interface{}   `json:"fields,omitempty"`
-	Points []map[string]interface{} `json:"points,omitempty"` // batch: fields per point
-	ZeroHint bool                   `json:"size_hint_0,omitempty"` // the batch's begin announces 0 points
+	Batch    bool                     `json:"batch"`
+	Name     string                   `json:"name"`
+	DB       string                   `json:"db,omitempty"`
+	RP       string                   `json:"rp,omitempty"`
+	Tags     map[string]string        `json:"tags"`
+	Dims     []string                 `json:"dims"`
+	ByName   bool                     `json:"by_name"`
+	TimeNs   int64                    `json:"time_ns"`
+	Fields   map[string]interface{}   `json:"fields,omitempty"`
+	Points   []map[string]interface{} `json:"points,omitempty"`      // batch: fields per point
+	ZeroHint bool                     `json:"size_hint_0,omitempty"` // the batch's begin announces 0 points
 }
 
 type c19Scenario struct {
